@@ -25,7 +25,8 @@ RULE = ("scenarios: operation {init, re-key via sp[k]=v, re-key via update_state
         "(byte snapshot, listing, check()), compared with the model's crash states as a sequence of distinct states; and "
         "one PFault case per (hooked call under a workspace incl. read-only opens and listdir, errno in {EIO, ENOSPC, "
         "EACCES, EXDEV, EROFS}) injected live (quick: a seeded sample of calls per scenario, all five errnos rotating; "
-        "thorough: every call x every errno).  non-trivial: the operation performs >= 2 mutating calls (crash) or the "
+        "thorough: every call x every errno), plus sampled DOUBLE faults (a second failing call later in the same run, "
+        "e.g. inside a rollback or handler).  non-trivial: the operation performs >= 2 mutating calls (crash) or the "
         "fault changes the outcome or the tree; distinct by (scenario, probe)")
 TRUSTED = [
     "the interposer (completeness self-check: replaying the trace on the pre-state reproduces the post-state byte for byte)",
@@ -99,6 +100,13 @@ def build_template(scn, root):
         with open(ja.fn("sub/empty.dat"), "wb") as fh:
             pass
         ja.doc["k"] = [1, "two"]
+    if scn.get("payload") == "big":
+        for d, names in (("r1", ["a.dat", "b.dat"]), ("r1/r2", ["c.dat"]), ("r1/r2/r3", ["d.dat", "e.dat"]), ("q", ["f.dat"])):
+            os.makedirs(ja.fn(d), exist_ok=True)
+            for n in names:
+                with open(ja.fn(os.path.join(d, n)), "wb") as fh:
+                    fh.write((d + "/" + n).encode() * 3)
+        os.makedirs(ja.fn("emptydir"))
     jb = pa.open_job(SP_B).init()
     with open(jb.fn("b.txt"), "wb") as fh:
         fh.write(b"other job")
@@ -337,14 +345,16 @@ def sig_of_event(op, rel, rel2):
     return (OPKIND[op], tuple(c1), tuple(c2))
 
 
-def run_op(scn, template, work, name, fault=None):
-    """Copy the template, run the operation under the interposer.  fault = (sig, occ, errno number)."""
+def run_op(scn, template, work, name, fault=None, fault2=None):
+    """Copy the template, run the operation under the interposer.  fault / fault2 = (sig, occ, errno number);
+    occurrences are counted in the run itself (the second fault in the run that contains the first)."""
     root = os.path.join(work, name)
     shutil.copytree(template, root, symlinks=True)
     pre = snapshot(root)
     act = prepare(scn, root)
     events = []
     seen = {}
+    fired = []
 
     def plan(k, op, rel, rel2):
         s = sig_of_event(op, rel, rel2)
@@ -354,7 +364,10 @@ def run_op(scn, template, work, name, fault=None):
         seen[s] = n + 1
         events.append((s, n, op))
         if fault is not None and s == fault[0] and n == fault[1]:
+            fired.append(len(events) - 1)
             return fault[2]
+        if fault2 is not None and fired and s == fault2[0] and n == fault2[1]:
+            return fault2[2]
         return None
 
     ip = Interposer(root, faults=plan, observe_reads=True, keep_pre=fault is None)
@@ -364,6 +377,7 @@ def run_op(scn, template, work, name, fault=None):
             act()
         except Exception as e:  # noqa: BLE001 - the class is the observation
             exc = e
+    ip.fired_at = fired[0] if fired else None
     return root, pre, ip, events, exc
 
 
@@ -432,9 +446,11 @@ def run_scenario(desc, work):
             if pick is not None:
                 plan = [plan[i % len(plan)] for i in pick] if plan else []
                 plan = list(dict.fromkeys(plan))
-        else:
+        elif "fault" in probe:
             f = probe["fault"]
             plan = [((f[0], tuple(f[1]), tuple(f[2])), f[3], f[4])]
+        else:
+            plan = []
         clean_out = None if exc is None else exn_name(exc)
         for idx, (s, n, en) in enumerate(plan):
             eno = dict(ERRNOS)[en]
@@ -453,9 +469,39 @@ def run_scenario(desc, work):
             fd = {"scn": scn, "probe": {"fault": [s[0], list(s[1]), list(s[2]), n, en]}}
             cases.append(case_of(L, scn, thr, pre_f, pr, fd, obs, out != clean_out or obs["tree_changed"],
                                  kinds0 + ["fault", en, s[0]]))
+            # ---- a second fault later in the same run (sampled)
+            later = ev_f[ipf.fired_at + 1:] if ipf.fired_at is not None else []
+            for j in desc.get("pick2", {}).get(str(idx), []):
+                if not later:
+                    break
+                s2, n2, _ = later[j % len(later)]
+                en2 = ERRNOS[(j // 7) % len(ERRNOS)][0]
+                cases.append(double_fault(scn, thr, template, work, kinds0, (s, n, en), (s2, n2, en2), clean_out))
+        if isinstance(probe, dict) and "fault2" in probe:
+            a, b = probe["fault2"]
+            cases.append(double_fault(scn, thr, template, work, kinds0,
+                                      ((a[0], tuple(a[1]), tuple(a[2])), a[3], a[4]),
+                                      ((b[0], tuple(b[1]), tuple(b[2])), b[3], b[4]), clean_out))
     finally:
         set_threads(True)
     return cases
+
+
+def double_fault(scn, thr, template, work, kinds0, f1, f2, clean_out):
+    (s1, n1, en1), (s2, n2, en2) = f1, f2
+    root, pre_f, ipf, ev_f, exc_f = run_op(scn, template, work, "g", fault=(s1, n1, dict(ERRNOS)[en1]),
+                                           fault2=(s2, n2, dict(ERRNOS)[en2]))
+    snap, ws = observe(root)
+    shutil.rmtree(root, ignore_errors=True)
+    L = Lit()
+    out = None if exc_f is None else exn_name(exc_f)
+    sig = lambda s: "{| sg_kind := %s; sg_p := %s; sg_q := %s |}" % (s[0], L.path(list(s[1])), L.path(list(s[2])))  # noqa: E731
+    pr = "(PFault2 %s %s %s %s %s %s %s %s)" % (sig(s1), coq_nat(n1), en1, sig(s2), coq_nat(n2), en2, coq_opt(out), L.fobs(snap, ws))
+    obs = {"outcome": out, "clean_outcome": clean_out, "faults_fired": len(ipf.injected),
+           "calls": [e[2] + " " + "/".join(e[0][1]) for e in ev_f][-8:], "tree": brief_tree(snap), "projects": brief_ws(ws),
+           "tree_changed": deep_key(snap) != deep_key(pre_f)}
+    fd = {"scn": scn, "probe": {"fault2": [[s1[0], list(s1[1]), list(s1[2]), n1, en1], [s2[0], list(s2[1]), list(s2[2]), n2, en2]]}}
+    return case_of(L, scn, thr, pre_f, pr, fd, obs, len(ipf.injected) == 2, kinds0 + ["double-fault", en1 + "+" + en2])
 
 
 def run_case(desc):
@@ -477,6 +523,9 @@ def scenarios():
                 out.append({"op": op, "dest": dest, "threads": thr})
             out.append({"op": op, "dest": "fresh", "threads": thr, "payload": False})
         out.append({"op": "clone", "dest": "collide", "threads": thr, "same_project": True})
+        for op, dest in (("rekey", "fresh"), ("move", "fresh"), ("clone", "fresh"), ("remove", "valid"), ("clear", "valid")):
+            out.append(dict({"op": op, "dest": dest, "threads": thr, "payload": "big"},
+                            **({"route": "setitem"} if op == "rekey" else {})))
         for op in ("remove", "clear"):
             for dest in ("valid", "missing"):
                 out.append({"op": op, "dest": dest, "threads": thr})
@@ -490,5 +539,8 @@ def gen_inputs(tier, rng):
         d = {"scn": scn, "probe": "all"}
         if tier == "quick":
             d["pick"] = [rng.randrange(10 ** 6) for _ in range(14)]
+            d["pick2"] = {str(i): [rng.randrange(10 ** 6)] for i in rng.sample(range(14), 3)}
+        else:
+            d["pick2"] = {str(i): [rng.randrange(10 ** 6)] for i in rng.sample(range(400), 90)}
         descs.append(d)
     return descs
